@@ -111,9 +111,17 @@ class SuperNet(DNAS):
         model = self.seed
         # tracing forces `eval()` on the inner model: restore its training status afterwards
         modes = [(m, m.training) for m in self.seed.modules()]
-        model, _, _ = convert(model, self._input_example, 'export')
-        for m, mode in modes:
-            m.training = mode
+        # ...and runs an eval-mode forward pass, which re-samples the selection coefficients:
+        # keep the ones sampled by the last forward pass of the search
+        thetas = [(m, m.theta_alpha) for m in self.seed.modules()
+                  if isinstance(m, SuperNetCombiner)]
+        try:
+            model, _, _ = convert(model, self._input_example, 'export')
+        finally:
+            for m, mode in modes:
+                m.training = mode
+            for m, theta in thetas:
+                m.theta_alpha = theta
         return model
 
     def summary(self) -> Dict[str, Dict[str, Any]]:
